@@ -719,13 +719,14 @@ func init() {
 			}
 			cs = append(cs, Case{Kind: "lenops"})
 			cs = append(cs, Case{Kind: "stdprecompiles"})
-			for _, f := range []h.Fork{h.Frontier, h.London, h.Shanghai, h.Cancun} {
+			for _, f := range []h.Fork{h.Frontier, h.Homestead, h.London, h.Shanghai, h.Cancun} {
 				for _, sz := range []int64{4096, 49152, 300_000, 1_000_000} {
 					if f >= h.Shanghai && sz > 49152 {
 						continue // (init code is limited to 49152 bytes from Shanghai on)
 					}
 					cs = append(cs, Case{Kind: "jumpcode", P: []int64{int64(f), sz, 1500}})
 				}
+				cs = append(cs, Case{Kind: "callops", P: []int64{int64(f)}})
 				for _, height := range []int64{100, 258, 1000, 70000} {
 					cs = append(cs, Case{Kind: "blockhash", P: []int64{int64(f), height}})
 				}
@@ -773,6 +774,9 @@ func runC20(c Case, tier string) (res CaseResult) {
 					res.Fail(Key("work-without-fee", fmt.Sprintf("call-0x%02x", 100+int(e.K-h.KCtxGet))), fmt.Sprintf("a precompile given %d gas (fixed fee 5000) still performed its host operation (%d payload bytes handed to the host)", pcGas, len(e.CtxKey)+len(e.Bytes)), hr.desc)
 				}
 			}
+		}
+		for _, v := range gasBounds(hr.fs.L) {
+			res.Fail(Key("gas-created", cls), "gas appeared from nowhere (work that nobody paid for): "+v, hr.desc)
 		}
 		res.Max("reads_in_one_instruction", int64(hr.maxReads))
 		for _, wf := range hr.workFindings {
@@ -890,6 +894,39 @@ func runC20(c Case, tier string) (res CaseResult) {
 		measure(hr, "blockhash")
 		res.Max("header_reads_in_one_instruction", int64(hr.maxHostReads))
 		res.Count("blockhash_runs", 1)
+	case "callops":
+		// every call kind with gas and value operands at the boundaries (0, 1, 2^63, 2^64-1, 2^64, 2^255, 2^256-1 ...), to a
+		// contract, a code-less account and a precompile: whatever the outcome, nobody is handed gas that was not paid for
+		fork := h.Fork(c.P[0])
+		callee := h.NewAsm().PushU(1).PushU(0).Op(h.MSTORE).PushU(32).PushU(0).Op(h.RETURN).Bytes()
+		vals := []*uint256.Int{h.U(0), h.U(1), h.U(999), new(uint256.Int).Lsh(h.U(1), 63), h.U(^uint64(0)), h.U(^uint64(0) - 40), new(uint256.Int).Lsh(h.U(1), 64), new(uint256.Int).Lsh(h.U(1), 255), new(uint256.Int).Not(h.U(0))}
+		for _, kind := range []byte{h.CALL, h.CALLCODE, h.DELEGATECALL, h.STATICCALL} {
+			for _, tgt := range []common.Address{h.ContractAddr(1), h.EOARich, common.BytesToAddress([]byte{4})} {
+				for _, g := range vals {
+					for _, v := range vals {
+						if kind != h.CALL && kind != h.CALLCODE && v != vals[0] {
+							continue
+						}
+						a := h.NewAsm()
+						for rep := 0; rep < 3; rep++ { // (three times: a gain would compound)
+							a.PushU(32).PushU(0).PushU(0).PushU(0)
+							if kind == h.CALL || kind == h.CALLCODE {
+								a.Push(v)
+							}
+							a.PushAddr(tgt).Push(g).Op(kind, h.POP)
+						}
+						a.Op(h.STOP)
+						hr := runHostile(h.BaseWorld([][]byte{a.Bytes(), callee}), h.EnvSpec{Fork: fork}, []h.TxSpec{{Entry: h.ECall, From: h.Sender, To: h.ContractAddr(0), Gas: 100000, Value: new(big.Int)}},
+							fmt.Sprintf("call kind %#x x3 to %s gas operand %s value operand %s on %s", kind, tgt.Hex()[34:], g.Hex(), v.Hex(), fork), false, nil)
+						measure(hr, "callops")
+						if last := hr.irs[len(hr.irs)-1]; last.Panic == "" && last.Gas > 100000 {
+							res.Fail(Key("gas-created", "callops-leftover"), fmt.Sprintf("a transaction given 100000 gas ended with %d", last.Gas), hr.desc)
+						}
+						res.Count("call_operand_runs", 1)
+					}
+				}
+			}
+		}
 	case "lenops":
 		// every standard opcode taking a length, with lengths 2^10 .. 2^64
 		type lop struct {
